@@ -163,6 +163,11 @@ class Ctx:
                     ok += 1
                 elif i.verdict == 'undecided':
                     undec += 1
+                    # fail closed: a shape the rule does not recognise is
+                    # neither a pass nor a violation
+                    analysis_errors.append(
+                        f'rule {i.rule} cannot decide "{i.key}" at '
+                        f'{i.site}: {i.msg}')
                 elif i.verdict == 'fail':
                     if i.fkey in known:
                         known_hit.append((i, known[i.fkey]))
